@@ -570,8 +570,18 @@ impl Locale {
             }
             if let Some((base_key, rule_type, plural_form)) = Self::is_possible_plural(&key, &value)
             {
-                let map = possible_plurals.entry(base_key.to_owned()).or_default();
-                map.insert(plural_form, (key, rule_type, value));
+                let base_key = base_key.to_owned();
+                let map = possible_plurals.entry(base_key.clone()).or_default();
+                if map.insert(plural_form, (key, rule_type, value)).is_some() {
+                    // same base key and same form: one is cardinal and the other ordinal
+                    let key = Key::new(&base_key).unwrap_at("merge_plurals_2");
+                    key_path.push_key(key);
+                    return Err(Error::ConflictingPluralRuleType {
+                        locale: locale.clone(),
+                        key_path: std::mem::take(key_path),
+                    }
+                    .into());
+                }
             } else {
                 self.keys.insert(key, value);
             }
